@@ -4,6 +4,14 @@
 From OTR Require Import Go.Base.
 Open Scope N_scope.
 
+(* long runs of the test pattern 1,2,..,7,1,2,.. are written by the harness as [patb len first] (a literal list of
+   tens of thousands of numerals takes Coq minutes to parse) *)
+Fixpoint patb (n : nat) (x : N) : bytes :=
+  match n with
+  | O => []
+  | S n' => x :: patb n' (x mod 7 + 1)
+  end.
+
 Inductive val : Type :=
 | VN (n : N)
 | VB (b : bytes)
